@@ -451,6 +451,10 @@ fn gen_c09(seed: u64, _index: u64, tier: Tier) -> ServerPlan {
     faults.insert("tcp.segment".into(), *r.pick(&[0.0, 0.3, 0.8]));
     faults.insert("tcp.short_read".into(), *r.pick(&[0.0, 0.3, 0.8]));
     faults.insert("tcp.partial_write".into(), *r.pick(&[0.0, 0.3]));
+    // the environment fails a receive, a send or an accept of the server now and then
+    faults.insert("udp.recv_error".into(), *r.pick(&[0.0, 0.0, 0.05, 0.3]));
+    faults.insert("udp.send_error".into(), *r.pick(&[0.0, 0.0, 0.1]));
+    faults.insert("tcp.accept_error".into(), *r.pick(&[0.0, 0.0, 0.1]));
     faults.insert("fs.list_order".into(), 0.5);
     faults.insert("order.any_answer".into(), *r.pick(&[0.0, 0.5, 1.0]));
     ServerPlan {
@@ -593,6 +597,12 @@ pub fn judge_message(
         (Expect::NoReply, None) | (Expect::NoReplyOrFormErr(_), None) => return,
         (Expect::NoReply, Some(_)) => {
             vs.push(Violation::new("c09.reply_to_unanswerable").detail(detail("a reply to a response-flagged or too-short message")));
+            return;
+        }
+        (_, None) if o.reply_send_failed || o.aborted_at_accept => {
+            // the environment failed the server's send or accept for this very
+            // message: nothing can arrive, and the server must only carry on
+            bump(stats, "probe.reply_lost_to_injected_send_or_accept_error");
             return;
         }
         (_, None) => {
@@ -770,7 +780,8 @@ fn oracle_c09(plan: &ServerPlan, obs: &ServerObs) -> RunResult {
         })));
     }
     for p in &obs.probes {
-        if p.replies.len() != 1 {
+        // (a probe whose own accept or reply send was failed by the environment proves nothing)
+        if p.replies.len() != 1 && !(p.reply_send_failed || p.aborted_at_accept) {
             res.violations.push(
                 Violation::new("c09.not_serving_after_run")
                     .detail(json!({"probe": p.index, "replies": p.replies.len()})),
@@ -857,7 +868,7 @@ impl Property for C09 {
             .collect()
     }
     fn rule(&self) -> String {
-        "one server (authoritative-only over a zone directory and a hosts directory, or recursive over a small correct universe) started through hook H7; 5..40 messages from as many clients, overlapping in time: valid queries over all header flag/opcode combinations, 0/1/2/3 questions, known and unknown types and classes, random bytes of 0/1/2/3/11/12/13/40/512/513/700 bytes, truncations, bit flips, padding beyond 512 bytes, self-pointers; over TCP with the length prefix right, too large, too small, zero, bodies dribbled in 1/2/7-byte pieces, cut anywhere, half-close, close, reset; record sets above and near the 512-byte limit. Oracle: framing/triage reference plus differential against dns_resolver::resolve for authoritative-only runs; both listeners alive and probe queries answered at the end. Non-trivial = the run mixes well-formed and malformed messages; distinct = distinct sequence of (transport, message kind, replies)".into()
+        "one server (authoritative-only over a zone directory and a hosts directory, or recursive over a small correct universe) started through hook H7; 5..40 messages from as many clients, overlapping in time: valid queries over all header flag/opcode combinations, 0/1/2/3 questions, known and unknown types and classes, random bytes of 0/1/2/3/11/12/13/40/512/513/700 bytes, truncations, bit flips, padding beyond 512 bytes, self-pointers; over TCP with the length prefix right, too large, too small, zero, bodies dribbled in 1/2/7-byte pieces, cut anywhere, half-close, close, reset; record sets above and near the 512-byte limit; a wildcard alias matched 1-3 labels down; the environment failing a recv_from on the listening UDP socket, a send_to of a reply or an accept now and then (the message concerned may then go unanswered, nothing else). Oracle: framing/triage reference plus differential against dns_resolver::resolve for authoritative-only runs; both listeners alive and probe queries answered at the end. Non-trivial = the run mixes well-formed and malformed messages; distinct = distinct sequence of (transport, message kind, replies)".into()
     }
     fn assumptions(&self) -> Vec<String> {
         vec![
@@ -1111,6 +1122,9 @@ fn gen_c19(seed: u64, _index: u64, tier: Tier) -> ServerPlan {
     faults.insert("fs.read_delay".into(), 0.6);
     faults.insert("fs.list_delay".into(), 0.6);
     faults.insert("fs.list_order".into(), 0.5);
+    faults.insert("udp.recv_error".into(), *r.pick(&[0.0, 0.0, 0.1]));
+    faults.insert("udp.send_error".into(), *r.pick(&[0.0, 0.0, 0.05]));
+    faults.insert("tcp.accept_error".into(), *r.pick(&[0.0, 0.0, 0.05]));
     faults.insert("fs.read_error".into(), *r.pick(&[0.0, 0.0, 0.05, 0.2]));
     faults.insert("fs.list_error".into(), *r.pick(&[0.0, 0.0, 0.05]));
     let max_extra = if forwarding { *r.pick(&[49u64, 149, 299]) } else { *r.pick(&[0u64, 4, 19]) };
@@ -1350,7 +1364,7 @@ fn oracle_c19(plan: &ServerPlan, obs: &ServerObs, seed: u64) -> RunResult {
         if m.what.starts_with("holder") {
             // a forwarded request: only there to be in flight; it must be answered
             bump(&mut res.stats, "probe.forwarded_request_in_flight_around_a_reload");
-            if o.replies.len() != 1 {
+            if o.replies.len() != 1 && !(o.reply_send_failed || o.aborted_at_accept) {
                 res.violations.push(Violation::new("c19.forwarded_request_unanswered").detail(json!({
                     "message": m.what, "replies": o.replies.len()
                 })));
@@ -1392,7 +1406,7 @@ fn oracle_c19(plan: &ServerPlan, obs: &ServerObs, seed: u64) -> RunResult {
         })));
     }
     for p in &obs.probes {
-        if p.replies.len() != 1 {
+        if p.replies.len() != 1 && !(p.reply_send_failed || p.aborted_at_accept) {
             res.violations.push(Violation::new("c19.not_serving_after_run").detail(json!({"probe": p.index})));
         }
     }
@@ -1452,7 +1466,7 @@ impl Property for C19 {
             .collect()
     }
     fn rule(&self) -> String {
-        "an authoritative-only server over -z/-Z/-A arguments; 1..6 phases, each 1..2 operator edits (replace a zone file with a new version, corrupt it in five ways, remove it, restore it, add a new file to the directory, add or corrupt a hosts file; whole-file replacement by rename) followed by SIGUSR1 (sometimes twice), with UDP and TCP queries 50 ms before to 1.2 s after the signal and injected read and listing errors and latencies in the file seam; record data carries the configuration version. Oracle: for every reload the expected configuration is what load_zone_configuration gives when run in isolation over exactly the results that reload was given (none = stay); the configuration behind the lock at every quiescent point equals it; every reply equals the answer of one version that was in force between its receipt and its dispatch; listeners alive and probes answered. Non-trivial = at least one SIGUSR1 delivered; distinct = distinct (operator script shape, event log)".into()
+        "an authoritative-only server over -z/-Z/-A arguments; 1..6 phases, each 1..2 operator edits (replace a zone file with a new version, corrupt it in five ways, remove it, restore it, add a new file to the directory, add or corrupt a hosts file; whole-file replacement by rename) followed by SIGUSR1 (sometimes twice; in a third of the phases 1..2 further edit+signal pairs 1..55 ms apart, while the first reload may still be reading), with UDP and TCP queries 50 ms before to 1.2 s after the signal and injected read and listing errors and latencies in the file seam; record data carries the configuration version. Oracle: for every reload the expected configuration is what load_zone_configuration gives when run in isolation over exactly the results that reload was given (none = stay); the configuration behind the lock at every quiescent point equals it; a quiescent snapshot taken after the last signal followed the last edit (and whose last load met no injected fault) equals a fault-free load of the files as they then are; every reply equals the answer of one version that was in force between its receipt and its dispatch; injected recv_from/send_to/accept failures of the server's sockets; listeners alive and probes answered. Non-trivial = at least one SIGUSR1 delivered; distinct = distinct (operator script shape, event log)".into()
     }
     fn assumptions(&self) -> Vec<String> {
         vec![
